@@ -299,17 +299,32 @@ def r205(ctx, R):
          'eq-ok=%s hash-ok=%s' % (ok_eq, ok_h), func=eq)
     # the merge collects into a set and returns every element
     m = prog.func(AC + ':_merge_candidates')
+    sv = merged_set_var(m)
     inits = [n for n in own_nodes(m.node) if isinstance(n, ast.Assign)
-             and src(n.targets[0]) == 'areqs' and src(n.value) == 'set()']
+             and sv and src(n.targets[0]) == sv and src(n.value) == 'set()']
     rets = [r for r in own_nodes(m.node) if isinstance(r, ast.Return)
-            and isinstance(r.value, ast.Tuple) and src(
-                r.value.elts[0]) == 'list(areqs)']
+            and isinstance(r.value, ast.Tuple) and sv and src(
+                r.value.elts[0]) == 'list(%s)' % sv]
     R.ob('R20.5', '_merge_candidates:set-of-candidates',
          len(inits) == 1 and len(rets) == 1,
          'merged candidates are de-duplicated through a set and all of them '
          'are returned', 'inits=%d returns=%d' % (len(inits), len(rets)),
          func=m)
     R.count('R20.5', 1, 1)
+
+
+def merged_set_var(m):
+    """The name _merge_candidates returns as list(<name>) in the first
+    position of its result tuple."""
+    for r in own_nodes(m.node):
+        if isinstance(r, ast.Return) and isinstance(
+                r.value, ast.Tuple) and r.value.elts:
+            e = r.value.elts[0]
+            if isinstance(e, ast.Call) and isinstance(
+                    e.func, ast.Name) and e.func.id == 'list' and len(
+                        e.args) == 1 and isinstance(e.args[0], ast.Name):
+                return e.args[0].id
+    return None
 
 
 _run_c20 = run
